@@ -338,7 +338,8 @@ def run_behaviour(args):
         link = [os.path.join(wd, 'ds.o')]
     with open(os.path.join(wd, 'driver.c'), 'w') as f:
         f.write(gen_driver(b))
-    rc, err, cmd = compile_driver(wd, 'gcc', ('-O1',), link=link)
+    # debug builds (-g) are compiled without optimisation, as debug builds are: calls of C library functions stay calls (an optimising compiler expands floor/sqrt inline)
+    rc, err, cmd = compile_driver(wd, 'gcc', ('-O0',) if '-g' in b.opts else ('-O1',), link=link)
     if rc != 0:
         return {'done': False, 'stage': 'compile', 'stderr': err[-1500:], 'cmd': ' '.join(cmd)}
     r = subprocess.run([os.path.join(wd, 'drv'), os.path.join(wd, 'm.wasm')], stdout=subprocess.PIPE, stderr=subprocess.PIPE, timeout=300)
